@@ -535,7 +535,7 @@ class DimensionValue(Value):
     """
 
     __reUnNumDim = re.compile(
-        r'^([+-]?)([0-9]*\.[0-9]+|[0-9]+)(.*)$', re.I | re.U | re.X
+        r'^([+-]?)([0-9]*\.[0-9]+|[0-9]+)(.*)$', re.I | re.U | re.X | re.S
     )
     _dimension = None
     _sign = None
